@@ -137,13 +137,13 @@ class World:
                 out[str(v)] = Fraction(0)
         return out
 
-    def robust_model(self, assumptions, goal, vars_, counts=()):
+    def robust_model(self, assumptions, goal, vars_, counts=(), count_max=6):
         """Look for a counterexample whose inputs are small integers (counts in 0..6), so that it survives rounding when
         replayed in doubles. Returns values dict or None."""
         extra = []
         for v in vars_:
             if any(v is c or str(v) == str(c) for c in counts):
-                extra.append(z3.Or(*[v == k for k in range(0, 7)]))
+                extra.append(z3.Or(*[v == k for k in range(0, count_max + 1)]))
             else:
                 extra.append(z3.Or(*[v == k for k in range(-6, 7)]))
         r = self.check(list(assumptions) + extra, goal, timeout_ms=20000)
@@ -178,7 +178,7 @@ class World:
             if replay is not None:
                 vals = None
                 try:
-                    vals = self.robust_model(assumptions, goal, replay["vars"], replay.get("counts", ()))
+                    vals = self.robust_model(assumptions, goal, replay["vars"], replay.get("counts", ()), replay.get("count_max", 6))
                 except Exception:
                     vals = None
                 res["robust_witness"] = vals is not None
@@ -259,3 +259,54 @@ def definitional(xs, P):
             acc = acc + (x - mean) ** p
         M[p] = acc
     return k, mean, M
+
+
+# ---------------------------------------------------------------------------------------- guarded values
+
+def gconj(cs):
+    cs = [to_bool(c) for c in cs if c is not True]
+    return z3.And(*cs) if cs else z3.BoolVal(True)
+
+
+def g_feed(W, ty, adds, pre=(), start=None):
+    """new() (or `start`) followed by add(args) for each args in `adds`, following every feasible path.
+    Returns a list of (extra path conditions, final value or 'panic:<msg>')."""
+    pre = list(pre)
+    states = [([], W.call_pure(ty, "new", []) if start is None else start)]
+    for args in adds:
+        nxt = []
+        for extra, v in states:
+            if isinstance(v, str):
+                nxt.append((extra, v))
+                continue
+            for o, after in W.method(ty, "add", v, list(args), pc=pre + extra):
+                e2 = list(o.pc[len(pre):])
+                nxt.append((e2, after if o.kind == "return" else "panic:%s" % o.msg))
+        states = nxt
+    return states
+
+
+def g_merge(W, ty, ga, gb, pre=()):
+    """merge every guarded a with every guarded b; returns guarded list of merged values"""
+    pre = list(pre)
+    out = []
+    for ea, va in ga:
+        for eb, vb in gb:
+            if isinstance(va, str) or isinstance(vb, str):
+                out.append((ea + eb, va if isinstance(va, str) else vb))
+                continue
+            from .interp import clone_value
+            ca, cb = Cell(clone_value(va)), Cell(clone_value(vb))
+            base = pre + ea + eb
+            for o in W.run(ty, "merge", [Ref(ca, ()), Ref(cb, ())], pc=base, roots={"a": ca}):
+                e2 = list(o.pc[len(pre):])
+                out.append((e2, o.state.roots["a"].v if o.kind == "return" else "panic:%s" % o.msg))
+    return out
+
+
+def g_goal(gvals, spec):
+    """spec(value) must hold under every guard; a panicking path fails"""
+    gs = []
+    for extra, v in gvals:
+        gs.append(z3.Implies(gconj(extra), z3.BoolVal(False) if isinstance(v, str) else to_bool(spec(v))))
+    return z3.And(*gs) if gs else z3.BoolVal(True)
